@@ -35,9 +35,12 @@ from pathlib import Path
 sys.path.insert(0, str(Path(__file__).resolve().parent))
 import common as C
 import c14
+import c14lib as L
 
 PID = "C15"
-TARGETS = ["Dist/NumF.vo", "Dist/DensF.vo", "Dist/DensityR.vo", "Dist/Normalise.vo", "Dist/InvTransform.vo", "Props/C15.vo"]
+# built in coq/ (independent of the source text); Gen_Dist / GenAgree / Props are compiled per tree (c14lib.DistTree)
+TARGETS = ["Dist/NumF.vo", "Dist/DensF.vo", "Dist/DensityR.vo", "Dist/Normalise.vo", "Dist/InvTransform.vo",
+           "Dist/Support.vo", "Dist/Ctor.vo"]
 IMPL14 = Path(__file__).resolve().parent / "c14_impl.py"
 IMPL15 = Path(__file__).resolve().parent / "c15_impl.py"
 INF = math.inf
@@ -479,7 +482,13 @@ def statistical_search(run, suspects, seed):
 def main(tier: str) -> int:
     run = C.Run(PID, tier)
     extra_known = os.environ.get("VERIF_KNOWN")
-    proofs_ok = run.check_proofs(TARGETS, extra_tb=[
+    try:
+        tree = L.DistTree().prepare()
+    except Exception as exc:  # noqa
+        run.violation("translated-model-not-buildable", f"the model could not be regenerated from the source: {type(exc).__name__}: {exc}",
+                      {"unchecked": "coq/Dist/GenAgree.v"}, found_input=False)
+        return run.finish()
+    proofs_ok = L.check_proofs(run, tree, TARGETS, extra_tb=[
         "libm (log, exp, pow, erf, gamma, lgamma) and the ** operator are oracle tables recorded from CPython in the same run",
         "theorems are over the real-number instance (Dist.NumR; stdlib reals + Coquelicot, the standard real-number axioms) of "
         "the same Gallina text (Dist.Draw, Dist.Density) that is executed with PrimFloat in the correspondence",
@@ -585,31 +594,46 @@ def main(tier: str) -> int:
               if dcases[i]["cls"] not in explained_classes]
     broken += [(draw_cases[i]["ops"][0][2], draw_cases[i]["ops"][0][5], "draw", i) for i in sorted(dmism - draw_known)
                if draw_cases[i]["ops"][0][2] not in explained_classes]
-    if broken:
+    # the regenerated model no longer equals the proved one: the classes whose agreement theorems broke are suspects too
+    tie = tree.broken_for(PID)
+    if "source_translation" in run.cov:
+        run.cov["source_translation"]["tie"] = ({"status": "broken", **{k: v for k, v in tie.items() if k != "failures"}}
+                                                if tie else {"status": "checked"})
+    tie_suspects = []
+    if tie and not run.violations:
+        for cls in [c for c in tie.get("classes", []) if c in GRID and c not in explained_classes][:6]:
+            for ps in GRID[cls][:4]:
+                tie_suspects.append((cls, ps))
+    hit = None
+    if broken or tie_suspects:
         suspects, seen = [], set()
-        for cls, ps, _, _ in broken:
+        for cls, ps in tie_suspects + [(b[0], b[1]) for b in broken]:
             key = (cls, json.dumps(ps))
             if key not in seen and len(suspects) < 24:
                 seen.add(key); suspects.append((cls, ps))
         hit = statistical_search(run, suspects, 1000 + run.seed)
+        run.cov["suspects_searched_statistically"] = len(suspects)
+    if hit:
+        cs, r, err = hit
+        what = (f"{cs['cls']}{tuple(pval(p) for p in cs['params'])}: a seeded sample of {cs['n']} draws (MersenneTwister({cs['seed']})) "
+                f"does not follow the declared density: distance {r['distance']!r} ({r['detail']})" if not err else
+                f"{cs['cls']}{tuple(pval(p) for p in cs['params'])}: {err}")
+        run.violation(f"sample-does-not-follow-density:{cs['cls']}", what,
+                      {"class": cs["cls"], "params": cs["params"], "seed": cs["seed"], "n": cs["n"],
+                       "distance": r.get("distance"), "threshold": stat_threshold(cs["cls"]),
+                       "how": "harness/c15_impl.py mode 'stats' on this case"})
+    elif broken:
         cls, ps, which, i = broken[0]
-        if hit:
-            cs, r, err = hit
-            what = (f"{cs['cls']}{tuple(pval(p) for p in cs['params'])}: a seeded sample of {cs['n']} draws (MersenneTwister({cs['seed']})) "
-                    f"does not follow the declared density: distance {r['distance']!r} ({r['detail']})" if not err else
-                    f"{cs['cls']}{tuple(pval(p) for p in cs['params'])}: {err}")
-            run.violation(f"sample-does-not-follow-density:{cs['cls']}", what,
-                          {"class": cs["cls"], "params": cs["params"], "seed": cs["seed"], "n": cs["n"],
-                           "distance": r.get("distance"), "threshold": stat_threshold(cs["cls"]),
-                           "how": "harness/c15_impl.py mode 'stats' on this case"})
-        else:
-            rep = ({"class": cls, "params": ps, "calls": dcases[i]["calls"], "impl_outputs": dres[i]["outs"], "relation": "Dist.DensF.dcase_ok"}
-                   if which == "density" else
-                   {"scenario": c14.public(draw_cases[i]), "impl_outputs": dr[i]["outs"], "relation": "Dist.NumF.case_ok"})
-            rep["mismatching"] = {"density": len(mism), "draw": len(dmism - draw_known)}
-            run.violation("model-impl-disagree",
-                          f"the {which} correspondence for {cls} no longer matches the implementation, but neither the clause "
-                          "evaluations nor the seeded-sample search found an input that violates the property", rep, found_input=False)
+        rep = ({"class": cls, "params": ps, "calls": dcases[i]["calls"], "impl_outputs": dres[i]["outs"], "relation": "Dist.DensF.dcase_ok"}
+               if which == "density" else
+               {"scenario": c14.public(draw_cases[i]), "impl_outputs": dr[i]["outs"], "relation": "Dist.NumF.case_ok"})
+        rep["mismatching"] = {"density": len(mism), "draw": len(dmism - draw_known)}
+        run.violation("model-impl-disagree",
+                      f"the {which} correspondence for {cls} no longer matches the implementation, but neither the clause "
+                      "evaluations nor the seeded-sample search found an input that violates the property", rep, found_input=False)
+    if tie and not run.violations:
+        L.report_broken_tie(run, tree, "the clause evaluations, the numeric oracle and the seeded-sample search",
+                            {"model_impl_mismatching_cases": {"density": len(mism), "draw": len(dmism - draw_known)}})
     if len(unresolved) + len(dunres) > 5:
         run.violation("pow-oracle-not-converging", f"{len(unresolved) + len(dunres)} cases still miss ** table entries",
                       {}, found_input=False)
